@@ -217,6 +217,35 @@ func (n *node) law(ia, ib, ic int) (law, msg string) {
 	return "", ""
 }
 
+// lawLite decides one pair with three calls: exactly one of Less(a,b), Less(b,a) or neither,
+// Compare agrees, and the sign is the one the structure demands.
+func (n *node) lawLite(ia, ib int) (law, msg string) {
+	a, b := n.dom[ia], n.dom[ib]
+	sa, sb := n.show(a), n.show(b)
+	defer func() {
+		if r := recover(); r != nil {
+			law, msg = "panic", fmt.Sprintf("ord.%s panicked on a=%s b=%s: %v", n.name, sa, sb, r)
+		}
+	}()
+	lab, lba, cmp := n.o.less(a, b), n.o.less(b, a), sign(n.o.compare(a, b))
+	if lab && lba {
+		return "trichotomy", fmt.Sprintf("ord.%s: Less(a,b) and Less(b,a) for a=%s b=%s", n.name, sa, sb)
+	}
+	got := 0
+	if lab {
+		got = -1
+	} else if lba {
+		got = 1
+	}
+	if cmp != got {
+		return "compare-consistent", fmt.Sprintf("ord.%s: Compare(a,b)=%d but Less(a,b)=%v Less(b,a)=%v for a=%s b=%s", n.name, cmp, lab, lba, sa, sb)
+	}
+	if ws, kind := n.want(a, b); kind == exact && ws != got {
+		return n.wantLaw, fmt.Sprintf("ord.%s: a %s b but the %s demands a %s b, for a=%s b=%s", n.name, rel(got), wantDesc[n.wantLaw], rel(ws), sa, sb)
+	}
+	return "", ""
+}
+
 var wantDesc = map[string]string{
 	"native-order":    "native order of the underlying values",
 	"lexicographic":   "lexicographic order over the component instances",
